@@ -1,0 +1,25 @@
+//go:build verif
+
+package server
+
+import (
+	"runtime/debug"
+	"sync/atomic"
+)
+
+var verifRecoveredFn atomic.Value // func(site string, v interface{}, stack []byte)
+
+// SetVerifRecovered installs an observer for panics that the goroutines of a connection recover from
+// (the connection is then closed with the panic value as its error); nil removes it.
+func SetVerifRecovered(f func(site string, v interface{}, stack []byte)) {
+	if f == nil {
+		f = func(string, interface{}, []byte) {}
+	}
+	verifRecoveredFn.Store(f)
+}
+
+func verifRecovered(site string, v interface{}) {
+	if f, ok := verifRecoveredFn.Load().(func(string, interface{}, []byte)); ok {
+		f(site, v, debug.Stack())
+	}
+}
